@@ -70,6 +70,11 @@ let handle fields impl : string option * string list =
         | _ -> np (m_key true (key_types net) key)) in
       ((if model = proj impl then None else Some ("model=" ^ model ^ " impl=" ^ proj impl)), monitor kind net impl)
     end
+  | ["live"; proto; _] ->
+    (* the model's verdict for every input is "no panic", hence the node survives *)
+    ((if impl = "alive" then None else Some "model=alive"),
+     (if impl = "dead" then ["node-killed-by-remote-input-" ^ proto ^ " the child process running a full node died after this TALKREQ"]
+      else if impl = "silent" then ["node-silent-after-remote-input-" ^ proto ^ " no TALKRESP and no PONG any more"] else []))
   | _ -> (Some "driver: unknown line", [])
 
 (* Util.run compares the returned model string with the implementation observable; here the comparison is on a
